@@ -303,6 +303,7 @@ def run(ctx):
 
     d7_no_cached_interior_pointer(db, rep)
     d8_every_insn_dispatched(db, rep)
+    d9_all_operand_slots(db, rep)
 
     # ---- D4 ------------------------------------------------------------------
     fn = db.func("orc_opcode_find_by_name", "orcopcode")
@@ -546,3 +547,50 @@ def d8_every_insn_dispatched(db, rep):
                       (f.name, bad[0][1] if bad else "", bad[0][0] if bad else ""), line=bad[0][0] if bad else lp.line)
     if n < 5:
         raise AnalysisBroken("only %d instruction loops calling rule->emit found" % n)
+
+
+def d9_all_operand_slots(db, rep, rule="D9-ALL-OPERAND-SLOTS", only=None):
+    """D9: an application opcode may use every operand slot the opcode structure has - ORC_STATIC_OPCODE_N_SRC sources and
+    ORC_STATIC_OPCODE_N_DEST destinations - whereas no built-in opcode has more than three sources, so a pass that stops
+    early is invisible with built-in opcodes.  Every counted loop of the library that walks src_size[]/src_args[] (or
+    dest_size[]/dest_args[]) with its induction variable, starting at slot 0, must run to the LAST slot of that array (the
+    declared array length); a loop that starts later (e.g. `for (j = 1; ...)`) is a deliberate partial walk and is not judged."""
+    from loops import counted
+    NS, ND = db.macro_int("ORC_STATIC_OPCODE_N_SRC"), db.macro_int("ORC_STATIC_OPCODE_N_DEST")
+    CAP = {"src_size": NS, "src_args": NS, "dest_size": ND, "dest_args": ND}
+    n = 0
+    for f in db.all_functions():
+        if not f.relfile.startswith("orc/") or f.body is None or (only is not None and not only(f)):
+            continue
+        for lp in [x for x in f.walk() if x.k == "ForStmt"]:
+            cl = counted(lp)
+            if not cl or cl["dir"] != "asc" or cl["first"] != (None, 0) or cl["last"][0] is not None:
+                continue
+            body = lp.c[3]
+            if body is None:
+                continue
+            arrays = set()
+            for x in body.walk():
+                if x.k == "ArraySubscriptExpr" and strip_casts(x.c[1]) is not None and strip_casts(x.c[1]).k == "DeclRefExpr" and strip_casts(x.c[1]).name == cl["var"]:
+                    b = strip_casts(x.c[0])
+                    if b is not None and b.k == "MemberExpr" and b.name in CAP:
+                        # only when this loop is the innermost one over that variable
+                        arrays.add(b.name)
+            if not arrays:
+                continue
+            kinds = {a.split("_")[0] for a in arrays}
+            if len(kinds) != 1:
+                continue                    # walks sources and destinations with one index: bounded by the smaller table on purpose
+            cap = CAP[sorted(arrays)[0]]
+            n += 1
+            rep.saw(f)
+            last = cl["last"][1]
+            rep.check(last == cap - 1, rule, where(f), "%s:%s[%s]@%s" % (f.name, "/".join(sorted(arrays)), cl["var"], lp.line),
+                      "loop over %s visits slots 0..%d" % ("/".join(sorted(arrays)), cap - 1),
+                      "%s walks %s with `%s` from 0 to %d, but the opcode structure has %d %s slots: operand %d of an application-registered opcode is never "
+                      "looked at by this pass (its liveness is not tracked / its register can be reused while it is still needed); no built-in opcode has that "
+                      "many, so nothing in the tree shows it" % (f.name, "/".join(sorted(arrays)), cl["var"], last, cap, "source" if "src" in kinds else "destination", last + 2),
+                      line=lp.line)
+    if n < 20:
+        raise AnalysisBroken("only %d loops over the operand slot arrays found" % n)
+    return n
